@@ -67,7 +67,7 @@ Definition hamt_case_ok (c : hamt_case) : bool :=
   | Ok (root, sz) =>
     match hc_built c with
     | Some o => N.eqb (fp root) (fst o) && N.eqb sz (snd o)
-    | None => true
+    | None => match hc_src c with HDump _ => true | _ => false end   (* a builder that failed where the model builds *)
     end
     &&
     (if is_shard root then
